@@ -598,7 +598,7 @@ def spec (op : String) (args impl : List String) : String :=
     | some sec, some code, some id, some auth, some attrs =>
       let m : Radmsg.Msg := { code := UInt8.ofNat code, id := UInt8.ofNat id, auth := auth, attrs := attrs }
       match impl with
-      | ["fail"] => if Spec.serializeFailOk m then "ok" else "bad serialize-failed-on-small-message"
+      | ["fail"] => if Spec.serializeFailOk m then "ok" else "bad serialize-failed-on-a-message-that-can-be-sent"
       | ["ok", b, _] => (match ofHex b with
           | some b => Spec.serializeVerdict realHashes m sec b
           | none => "bad output-shape")
